@@ -453,7 +453,7 @@ func ruleLossyConv(p *Prog, r *Report) {
 			// what was appended to the node's value slice?
 			var stored []Val
 			var valuesPath string
-			for path, v := range in.heap {
+			for path, v := range in.FinalHeap() {
 				if strings.HasPrefix(path, "ast."+fs.name+"#") && strings.HasSuffix(path, ".values") && v.K == KSlice {
 					valuesPath = v.S
 				}
@@ -462,7 +462,7 @@ func ruleLossyConv(p *Prog, r *Report) {
 				r.unk(rb, key, p.Pos(fn.Pos()), "the node's values field was not found")
 				continue
 			}
-			for path, v := range in.heap {
+			for path, v := range in.FinalHeap() {
 				if strings.HasPrefix(path, valuesPath+"[") {
 					stored = append(stored, v)
 				}
